@@ -159,9 +159,21 @@ func evalNameArray(node *jparse.NameNode, data reflect.Value, env *environment) 
 			return undefined, err
 		}
 
-		if v.IsValid() && v.CanInterface() {
-			results.Append(v.Interface())
+		if !v.IsValid() || !v.CanInterface() {
+			continue
 		}
+
+		// An element that is itself an array yields a nested
+		// result sequence: splice its values in instead of
+		// appending the sequence object as an item.
+		if seq, ok := asSequence(v); ok {
+			for _, item := range seq.values {
+				results.Append(item)
+			}
+			continue
+		}
+
+		results.Append(v.Interface())
 	}
 
 	return reflect.ValueOf(results), nil
@@ -264,6 +276,11 @@ func evalPathStep(step jparse.Node, data reflect.Value, env *environment, lastSt
 
 func evalOverArray(node jparse.Node, data reflect.Value, env *environment) ([]reflect.Value, error) {
 	var results []reflect.Value
+
+	// An array that is itself an element of an array arrives
+	// here as an interface-kinded Value. Look through it before
+	// asking for its length.
+	data = jtypes.Resolve(data)
 
 	for i, N := 0, data.Len(); i < N; i++ {
 
